@@ -173,7 +173,51 @@ def bounded_composition(tier, seed):
             'failures': failures}
 
 
-BOUNDED = [bounded_composition]
+def bounded_invoke_stacking(tier, seed):
+    """Invoke parts stack left to right: positional arguments accumulate in chaining order, a keyword given twice takes the value of the LATER
+    part -- whether the parts are constants(), specs() or star(kwargs=) -- and the function is called exactly once with the result.
+    Oracle: list.extend / dict.update in chaining order.  Bound: all sequences of <= 3 parts over the 8 part kinds below (585 specs)."""
+    import itertools
+    from glom import glom, Invoke, T
+    target = {'opts': {'sep': '|', 'end': '!'}, 'more': {'end': '?'}, 'lst': [7, 8], 's': 'S', 'a': 'A'}
+    parts = [('constants', (1,), {}), ('constants', (), {'sep': '-'}), ('constants', (2,), {'end': '.', 'sep': '+'}), ('specs', ('a',), {}), ('specs', (), {'sep': 's'}),
+             ('star', (), {'kwargs': 'opts'}), ('star', (), {'args': 'lst'}), ('star', (), {'args': 'lst', 'kwargs': 'more'})]
+    calls = []
+    def f(*a, **k):
+        calls.append(1)
+        return (a, sorted(k.items()))
+    cases, failures = 0, []
+    for n in range(0, 4):
+        for seq in itertools.product(parts, repeat=n):
+            spec, ea, ek = Invoke(f), [], {}
+            for meth, a, k in seq:
+                spec = getattr(spec, meth)(*a, **k)
+                if meth == 'constants':
+                    ea.extend(a); ek.update(k)
+                elif meth == 'specs':
+                    ea.extend(target[x] for x in a); ek.update({kk: target[v] for kk, v in k.items()})
+                else:
+                    if 'args' in k:
+                        ea.extend(target[k['args']])
+                    if 'kwargs' in k:
+                        ek.update(target[k['kwargs']])
+            cases += 1
+            del calls[:]
+            try:
+                got = glom(target, spec)
+            except Exception as e:
+                got = repr(e)
+            exp = (tuple(ea), sorted(ek.items()))
+            if got != exp or len(calls) != 1:
+                failures.append({'key': 'invoke-stacking', 'input': repr(spec)[:200], 'observed': repr(got)[:150] + ' (%d calls)' % len(calls), 'expected': repr(exp)[:150],
+                                 'replay_code': None})
+                if len(failures) > 5:
+                    break
+    return {'name': 'Invoke parts stack left to right (list.extend / dict.update oracle)', 'label': 'bounded', 'cases': cases, 'bound': 'sequences of <= 3 parts over 8 part kinds',
+            'failures': failures}
+
+
+BOUNDED = [bounded_composition, bounded_invoke_stacking]
 
 ASSUMPTIONS = [
     'G-contract: scope[glom](t, s, sc) is an uninterpreted transformer of the whole modelled state (opaque user world token, scope frames, lists); '
